@@ -355,7 +355,7 @@ def c02_query_extents(rep, scr, impl, md, consts, tier, seed):
         if b is not None and a.fault == '-' and (a.ret, a.blocks, a.handlers) != (b.ret, b.blocks, b.handlers): rep.mismatches.append((c, a, b, 'O1'))
 
 SWEEP_MODELLED = ['strtolowercase_s', 'strtouppercase_s', 'strset_s', 'strnset_s', 'strnterminate_s', 'strcpyfld_s', 'strcpyfldin_s', 'strcpyfldout_s',
-                  'memccpy_s', 'wmemcpy_s', 'wmemmove_s', 'stpcpy_s', 'stpncpy_s']
+                  'memccpy_s', 'wmemcpy_s', 'wmemmove_s', 'stpcpy_s', 'stpncpy_s', 'strljustify_s', 'strremovews_s', 'wcsset_s', 'wcsnset_s']
 
 def sweep_batch(rep, scr, impl, consts, pid, var, tier, seed, md=None):
     """cross-cutting properties on the destination-writing entry points outside the copy/memory core (harness/sweep.py):
@@ -409,7 +409,9 @@ def sweep_batch(rep, scr, impl, consts, pid, var, tier, seed, md=None):
             if a is not None and b is not None:
                 # T1 for the modelled sweep functions: the whole outcome (return, handler calls, every byte of every block, fault or not)
                 rep.extra['sweep_model_compared'] = rep.extra.get('sweep_model_compared', 0) + 1
-                if (a.ret, a.handlers, a.blocks, a.fault != '-') != (b.ret, b.handlers, b.blocks, b.fault != '-'):
+                # (when both sides fault, the implementation stops there: only the place of the fault is compared)
+                both_fault = a.fault != '-' and b.fault != '-'
+                if (a.fault != b.fault) if both_fault else ((a.ret, a.handlers, a.blocks, a.fault != '-') != (b.ret, b.handlers, b.blocks, b.fault != '-')):
                     if not known.classify(rep, c, a, 'model-mismatch', var, consts): rep.mismatches.append((c, a, b, var))
             rep.evals += 1; rep.count('sweep/%s/%s' % (c.func, var)); scope.add(c.func)
             if a is None:
